@@ -95,12 +95,15 @@ def incarnation_scenarios(rng, ctx, per_config):
                         if end in ("delete", "finish-delete"):
                             a_ops += [dele(A)]
                         a_tail = [{"op": "event", "n": 0}, {"op": "resync", "ip": "@a0"}, {"op": "resync", "ip": "@a1"},
+                                  {"op": "resync_item", "ip": "@a0"}, {"op": "resync_item", "ip": "@a1"},
                                   {"op": "api_release", "ip": "@a0", "key": "@ka0"}, {"op": "sync_pod", "ns": "ns1", "name": name},
                                   {"op": "event", "n": 0}]
                         rng.shuffle(a_tail)
                         b_ops = [put(B), inf(B), flt(B), bnd(B, rng.choice(["node1", "node2"])), inf(B), phase(B, 1), inf(B)]
                         if end == "finish":
                             b_ops = [dele(A)] + b_ops
+                        # a resync pass took its snapshot right after the old pod ended; its items are handled later
+                        a_ops = a_ops + [{"op": "resync_fetch"}]
                         for m in interleavings(rng, a_tail, b_ops, per_config):
                             tail = [{"op": "event", "n": 0}, {"op": "resync", "ip": "@a0"}, {"op": "resync", "ip": "@a1"},
                                     {"op": "resync", "ip": "@a2"}, {"op": "reload", "conf": conf_text([POOL_A, POOL_B])}, {"op": "restart"},
@@ -337,7 +340,7 @@ def mon_c10(h, o, nwf, keys):
                 sp = specs.get((op["ns"], op["name"], lp[0][2])) if lp else None
                 if sp and any(e[1] == pod_key(sp) and cloud.get(e[0], op["node"]) != op["node"] for e in prev["alloc"]):
                     tags = sorted(set(tags + [K3_TAG]))
-            if k in ("resync", "api_release") and st.get("ip"):
+            if k in ("resync", "api_release", "resync_item") and st.get("ip"):
                 ent = [e for e in prev["alloc"] if e[0] == ipamgen.s2ip(st["ip"])]
                 if ent and len([e for e in prev["alloc"] if e[1] == ent[0][1]]) >= 2:
                     tags = sorted(set(tags + [K3B_TAG]))
@@ -652,7 +655,7 @@ def mon_c03(h, o, nwf, keys):
             sts[(op["ns"], op["name"])] = op.get("replicas")
         if k == "dp_set":
             dps[(op["ns"], op["name"])] = op.get("replicas")
-        if prev is not None and k in ("event", "resync") and st.get("res") == "ok":
+        if prev is not None and k in ("event", "resync", "resync_item") and st.get("res") == "ok":
             after = {e[0]: e for e in d["alloc"]}
             ev_uid = (st.get("event_pod") or [None, None, None])[2]
             for e in prev["alloc"]:
@@ -662,7 +665,7 @@ def mon_c03(h, o, nwf, keys):
                 pol = eff_policy(byuid[ev_uid]) if (k == "event" and ev_uid in byuid) else e[2]
                 if k == "event" and (ev_uid not in byuid or pod_key(byuid[ev_uid]) != e[1]):
                     continue
-                if k == "resync" and ipamgen.s2ip(st.get("ip", "0.0.0.0")) != e[0] and not any(
+                if k in ("resync", "resync_item") and ipamgen.s2ip(st.get("ip", "0.0.0.0")) != e[0] and not any(
                         x[0] == ipamgen.s2ip(st.get("ip", "0.0.0.0")) and x[1] == e[1] for x in prev["alloc"]):
                     continue
                 gone = e[0] not in after
